@@ -1,6 +1,9 @@
 package checks
 
 import (
+	"verifh/refcodec"
+	"github.com/zishang520/engine.io/v2/transports"
+	"sync/atomic"
 	crand "crypto/rand"
 	"fmt"
 	"io"
@@ -357,6 +360,71 @@ func registryDeleteVsPromotion(r *rep.Report, others int) (key, msg string, held
 	return "", "", held
 }
 
+// registryCloseFromInside: the application closes a session from inside one of the session's own
+// listeners or send callbacks (real time, real goroutines).  Whatever the code does with its
+// locks there, a session whose state is "closed" must leave the table and the count.
+func registryCloseFromInside(event, transport string, discard bool) (key, msg string, reached bool) {
+	so := &config.ServerOptions{}
+	so.SetPingInterval(time.Hour)
+	so.SetPingTimeout(time.Hour)
+	var once atomic.Bool
+	act := func(s engine.Socket) {
+		if once.CompareAndSwap(false, true) {
+			go func() {}() // (nothing: keep the action on the emitting goroutine)
+			s.Close(discard)
+		}
+	}
+	w := rig.NewWorld(rig.Options{Server: so, OnConnection: func(s engine.Socket) {
+		switch event {
+		case "packetCreate", "flush", "drain", "message":
+			s.On(types.EventName(event), func(...any) { act(s) })
+		}
+	}})
+	defer w.FinishReal()
+	cl, err := w.Connect(rig.ClientCfg{Rev: 4, Transport: transport})
+	if err != nil {
+		return "", "", false
+	}
+	deadline := time.Now().Add(3 * time.Second)
+	var sock engine.Socket
+	for sock == nil && time.Now().Before(deadline) {
+		sock = w.Socket(0)
+		time.Sleep(time.Millisecond)
+	}
+	if sock == nil {
+		return "", "", false
+	}
+	cl.StartReader()
+	time.Sleep(5 * time.Millisecond)
+	go func() {
+		switch event {
+		case "callback":
+			sock.Send(types.NewStringBufferString("trigger"), nil, func(transports.Transport) { act(sock) })
+		case "message":
+			cl.Send(refcodec.Text(refcodec.Message, "trigger"))
+		default:
+			sock.Send(types.NewStringBufferString("trigger"), nil, nil)
+		}
+	}()
+	ok := func() bool {
+		if sock.ReadyState() != "closed" {
+			return false
+		}
+		_, in := w.Eng.Clients().Load(sock.Id())
+		return !in && w.Eng.ClientsCount() == 0 && w.Eng.Clients().Len() == 0
+	}
+	for time.Now().Before(deadline) && !ok() {
+		time.Sleep(2 * time.Millisecond)
+	}
+	reached = once.Load()
+	if reached && sock.ReadyState() == "closed" && !ok() {
+		_, in := w.Eng.Clients().Load(sock.Id())
+		key, msg = "c04-closed-session-registered", fmt.Sprintf("Close(discard=%v) called from inside a %s listener of a %s session: three seconds later the session's state is closed, yet it is reachable in the client table (%v), table %d, count %d", discard, event, transport, in, w.Eng.Clients().Len(), w.Eng.ClientsCount())
+	}
+	cl.Stop()
+	return
+}
+
 func TestC04(t *testing.T) {
 	r := rep.New(t, "C04")
 	defer r.Flush()
@@ -382,6 +450,23 @@ func TestC04(t *testing.T) {
 		}
 		if key != "" {
 			r.Violation(key, msg, c)
+		}
+	}
+	if r.Lane == 1%r.Lanes {
+		for k := 0; k < r.N(4, 64); k++ {
+			for _, tr := range []string{"polling", "websocket"} {
+				for _, ev := range []string{"callback", "drain", "flush", "packetCreate", "message"} {
+					discard := (k+len(ev))%2 == 0
+					key, msg, reached := registryCloseFromInside(ev, tr, discard)
+					r.Case(fmt.Sprintf("close-from-inside/%s/%s/%v", tr, ev, discard), reached)
+					if reached {
+						r.Obs("closes_from_inside_a_listener", 1)
+					}
+					if key != "" {
+						r.Violation(key, msg, map[string]any{"lane": "close from inside a listener or send callback", "event": ev, "transport": tr, "discard": discard})
+					}
+				}
+			}
 		}
 	}
 	registryChurn(r, r.N(4*6, 16*60)/max(r.Lanes, 1))
